@@ -14,7 +14,12 @@ advances or leaves an unquoted-attribute context (`StepOK`); `crun_sim` lifts th
 `R_readout` reads context and URL flag off `R` at the hole. One step is proved per lexer context:
 `step_html`, `step_tag`, `step_attr` (`LexCtxSimTag`, with the inner loops in `LexCtxSimLoops`),
 `step_js` (`LexCtxSimJs`), `step_css` (`LexCtxSimCss`); the end tags `</script` / `</style` are in
-`LexCtxSimEnd`. Core Lean only. -/
+`LexCtxSimEnd`.
+
+The step lemmas and `crun_sim` are stated for the NEXT hole after an offset `lo` (`Hole text lo n`:
+no delimiter starts in `[lo, n)`, the reference run over the real text stays in `D` up to `n`); the
+three theorems here are the case `lo = 0`. `LexCtxAll*` use the general form for every later hole.
+Core Lean only. -/
 namespace ScriggoV.LexCtx
 open ScriggoV ScriggoV.Lexer ScriggoV.Gen.LexTables ScriggoV.HtmlTok
 
